@@ -123,9 +123,16 @@ def run(ctx):
                        fme.where, expected='guard-raise on len(decoded bytes)*8 in CORRECT_ENTROPY_BITS dominating the sentence',
                        found=sorted(T.show(k, maxdepth=3) for k in known)[:5])
     with ctx.obligation('C04.TABLES', 'bip39 size tables', None, 'btc_hd_wallet/bip39.py') as ob:
-        same_term(ob, ev.module_const('bip39', 'CORRECT_ENTROPY_BITS'), T.lst([T.const(b) for _, b in PAIRS]), 'CORRECT_ENTROPY_BITS',
+        def as_list(v):
+            # the tables are sequences of sizes: a tuple (or a constant tuple) holds the same sizes as a list
+            if T.tag(v) == 'tuple':
+                return T.lst(list(v[1]))
+            if T.is_const(v) and isinstance(v[1], tuple):
+                return T.lst([T.const(x) for x in v[1]])
+            return v
+        same_term(ob, as_list(ev.module_const('bip39', 'CORRECT_ENTROPY_BITS')), T.lst([T.const(b) for _, b in PAIRS]), 'CORRECT_ENTROPY_BITS',
                   'btc_hd_wallet/bip39.py')
-        same_term(ob, ev.module_const('bip39', 'CORRECT_MNEMONIC_LENGTH'), T.lst([T.const(w) for w, _ in PAIRS]),
+        same_term(ob, as_list(ev.module_const('bip39', 'CORRECT_MNEMONIC_LENGTH')), T.lst([T.const(w) for w, _ in PAIRS]),
                   'CORRECT_MNEMONIC_LENGTH', 'btc_hd_wallet/bip39.py')
         same_term(ob, ev.module_const('bip39', 'MNEMONIC_LENGTH_TO_ENTROPY_BITS'),
                   T.dct([(T.const(w), T.const(b)) for w, b in PAIRS]), 'MNEMONIC_LENGTH_TO_ENTROPY_BITS', 'btc_hd_wallet/bip39.py')
